@@ -1079,7 +1079,8 @@ func Run(c *core.Ctx) error {
 	th := c.Thorough()
 	c.Rule = "items = steps of the 11 step types (9 factory types, SqlStep_3, MessageStepX; every version byte / option flag), the 3 service record types and transaction records, " +
 		"built through golib's constructors with every exported field set (boundary values of the field's width, text/blob lengths around 253..256, stacks of 0..128 entries, attribute / custom-field maps of 0..255 entries over all value type codes); " +
-		"each item is written into a stream of 1..60 items by the real writer and read back by the real reader; non-trivial = written form of >= 2 bytes; distinct by (kind, written bytes)"
+		"each item is written into a stream of 1..60 items by the real writer and read back by the real reader; generator retain: 2..8 streams of 1..12 items encoded by every encoder entry point before any is decoded, " +
+		"every output handed back kept and looked at again after the later encodings and decodings; non-trivial = written form of >= 2 bytes; distinct by (kind, written bytes)"
 	bypass := 0
 	grid := c.Trace("c08_grid", "Trace_Profile")
 	rnd := c.Trace("c08_rand", "Trace_Profile")
